@@ -22,7 +22,7 @@ Obs0 == InitState
 
 StepFails(pre, e, spre) ==
   LET a == Act(e)  post == Obs(e)  o == e.o IN
-  Chk("C11_OnlyExpectedExceptions", e.exc = "") \cup
+  Chk(IF a.op \in {"yaml", "resetall", "reset"} THEN "C12_RouteAccepted" ELSE "C11_OnlyExpectedExceptions", e.exc = "") \cup
   Chk("C11_ConstructKeeps", C11_ConstructKeeps(pre, a, post)) \cup
   Chk("C11_GlobalEditNoEffect", C11_GlobalEditNoEffect(pre, a, post)) \cup
   Chk("C11_SnapEditNoLeak", C11_SnapEditNoLeak(pre, a, post)) \cup
